@@ -79,6 +79,15 @@ func verifC12_grammar() {
 	if kind != 1 {
 		r.Header.Set("Origin", origin)
 	}
+	if kind == 0 && vChoose("hostClaims", 2) == 1 {
+		// the request also carries every other header in which a client can merely CLAIM a host: the comparison is with
+		// the request's Host and nothing else
+		r.Header.Set("X-Forwarded-Host", trueHost)
+		r.Header.Set("Forwarded", "host="+trueHost)
+		r.Header.Set("X-Original-Host", trueHost)
+		r.Header.Set("X-Host", trueHost)
+		vReach("C12.grammar.host-claims")
+	}
 	t := vNewTransport(nil)
 	t.endMode = vEndBlock
 	w := &vRespWriter{hdr: http.Header{}, conn: &vNetConn{t}}
